@@ -63,6 +63,27 @@ func genDegenerate(g kit.G, c *kit.Corpus, depth int) kit.QSpec {
 			return q
 		}
 	}
+	// lookalike appends a copy of a text operand that differs only in a flag
+	// (content / file scope, case): operands that print alike and mean
+	// different things
+	lookalike := func(q *kit.QSpec) {
+		if len(q.Kids) == 0 || !g.Bool(25, "lookalike") {
+			return
+		}
+		k := q.Kids[g.U(len(q.Kids), "lakid")]
+		if k.Op != "substr" && k.Op != "regex" {
+			return
+		}
+		switch g.U(4, "laflag") {
+		case 0:
+			k.Content, k.File = !k.Content, false
+		case 1:
+			k.File, k.Content = !k.File, false
+		case 2:
+			k.CS = !k.CS
+		}
+		q.Kids = append(q.Kids, k)
+	}
 	switch g.Int(0, 9, "dnode") {
 	case 0, 1, 2:
 		n := g.Int(0, 3, "nkids")
@@ -70,6 +91,7 @@ func genDegenerate(g kit.G, c *kit.Corpus, depth int) kit.QSpec {
 		for i := 0; i < n; i++ {
 			q.Kids = append(q.Kids, genDegenerate(g, c, depth+1))
 		}
+		lookalike(&q)
 		return q
 	case 3, 4, 5:
 		n := g.Int(0, 3, "nkids")
@@ -77,6 +99,7 @@ func genDegenerate(g kit.G, c *kit.Corpus, depth int) kit.QSpec {
 		for i := 0; i < n; i++ {
 			q.Kids = append(q.Kids, genDegenerate(g, c, depth+1))
 		}
+		lookalike(&q)
 		return q
 	case 6, 7:
 		return kit.QSpec{Op: "not", Kids: []kit.QSpec{genDegenerate(g, c, depth+1)}}
